@@ -141,7 +141,8 @@ def find_recombination(
     positions: Sequence[int],
     recombcost: Sequence[int],
 ) -> Sequence[RecombinationEvent]:
-    assert len(transmission_vector) == len(positions) == len(recombcost)
+    # For an empty list of positions, the recombination cost computers return one dummy entry
+    assert len(transmission_vector) == len(positions) <= len(recombcost) <= max(1, len(positions))
     assert set(components.keys()).issubset(set(positions))
     position_to_index = {pos: i for i, pos in enumerate(positions)}
     blocks = defaultdict(list)
